@@ -13,6 +13,11 @@ Three executable judgements over the statement lists regenerated from the C sour
   enumerates every exit path (each failing call jumps to its label *without* the call's effect),
   tracks which objects are live and which hold data derived from the private exponent or the
   blinding value, and records how each object is released.
+
+Every function comes as one statement list per preprocessor configuration (`…Configs`); `allConfigs`
+lifts a judgement to all of them.  Two further syntactic rules: `onlyHandledBy` (an object is passed
+to nothing but a fixed set of functions) and `noHiddenRealloc` (no call of a function that may move
+a buffer inside libc, where the old block is released out of the translator's sight).
 -/
 namespace Percival.Model.Wipe
 open Percival.Model.WipeLang
@@ -29,6 +34,27 @@ def argIs (v : String) (a : String) : Bool :=
   a == v || a == "&" ++ v || a == "(void *)" ++ v
 
 def mentions (v : String) (args : List String) : Bool := args.any (argIs v)
+
+/-- a judgement holds in every preprocessor configuration of a function (and there is at least one) -/
+def allConfigs (cfgs : List (String × List Stmt)) (p : List Stmt → Bool) : Bool :=
+  !cfgs.isEmpty && cfgs.all (fun c => p c.2)
+
+/-- every call that is handed the object `x` is a call of one of the functions in `allowed` -/
+def onlyHandledBy (x : String) (allowed : List String) (body : List Stmt) : Bool :=
+  (callsOf body).all (fun c => !mentions x c.2.2 || allowed.contains c.2.1)
+
+/-- what `crypto_aes_key_free` may hand the key object to: the wipe, `free`, and the release functions of the
+    accelerated layouts (judged on their own) -/
+def aesKeyHandlers : List String :=
+  ["insecure_memzero", "free", "crypto_aes_key_free_aesni", "crypto_aes_key_free_arm"]
+
+/-- Functions that may *move* a heap buffer: the old block goes back to the allocator from inside libc, with whatever
+    it held, and no `free` appears in the caller's source. -/
+def mayReallocFns : List String := ["getline", "getdelim", "realloc", "reallocarray"]
+
+/-- no call of a may-reallocate function anywhere in the body (static helpers are inlined by the translator) -/
+def noHiddenRealloc (body : List Stmt) : Bool :=
+  (callsOf body).all (fun c => !mayReallocFns.contains c.2.1)
 
 /-! ## 1. contexts are zero after `*_Final` -/
 
@@ -140,12 +166,29 @@ def fromLabel (l : String) : List Stmt → Option (List Stmt)
   | .label l' :: r => if l' == l then some r else fromLabel l r
   | _ :: r => fromLabel l r
 
-/-- run the epilogue reached by a jump: straight to `ret`, labels fall through -/
-def runLadder (s : St) : List Stmt → St
-  | [] => s
-  | .ret :: _ => s
-  | .call dst fn args _ :: r => runLadder (applyCall s dst fn args) r
-  | _ :: r => runLadder s r
+/-- run the code reached by a jump: calls take effect, labels fall through, `goto` is followed (through
+    `whole`), `ret` or the end of the list ends the run.  One unit of fuel per statement; the flag says that
+    every jump target existed and the fuel sufficed (a cyclic ladder runs out of it). -/
+def runLadder (whole : List Stmt) : Nat → St → List Stmt → St × Bool
+  | 0, s, _ => (s, false)
+  | _ + 1, s, [] => (s, true)
+  | _ + 1, s, .ret :: _ => (s, true)
+  | f + 1, s, .call dst fn args _ :: r => runLadder whole f (applyCall s dst fn args) r
+  | f + 1, s, .goto l :: _ =>
+      match fromLabel l whole with
+      | some lad => runLadder whole f s lad
+      | none => (s, false)
+  | f + 1, s, _ :: r => runLadder whole f s r
+
+def ladderFuel (whole : List Stmt) : Nat := (whole.length + 1) * (whole.length + 1)
+
+/-- is `c` the test "`v` is a null pointer"? -/
+def isNullTest (c v : String) : Bool :=
+  c == v ++ " == NULL" || c == "NULL == " ++ v || c == "!" ++ v
+
+/-- on the branch where `c` holds, an object variable that `c` finds null holds no object -/
+def assumeCond (c : String) (s : St) : St :=
+  { s with live := s.live.filter (fun v => !isNullTest c v) }
 
 /-- one exit path: where it left the main line, whether its jump target exists, final state -/
 structure Path where
@@ -154,27 +197,24 @@ structure Path where
   st : St
   deriving Repr
 
+/-- the path that leaves the main line by a jump to `l` in state `s` -/
+def jumpPath (whole : List Stmt) (desc l : String) (s : St) : Path :=
+  if l == "<return>" then ⟨desc, true, s⟩
+  else match fromLabel l whole with
+    | some lad => let r := runLadder whole (ladderFuel whole) s lad; ⟨desc ++ "->" ++ l, r.2, r.1⟩
+    | none => ⟨desc ++ "->" ++ l, false, s⟩
+
 /-- all exit paths of a goto-ladder function -/
 def paths (whole : List Stmt) : St → List Stmt → List Path
   | s, [] => [⟨"end", true, s⟩]
   | s, .ret :: _ => [⟨"return", true, s⟩]
   | s, .call dst fn args fail :: r =>
       let failPath : List Path := match fail with
-        | some l => if l == "<return>" then [⟨"fail:" ++ fn, true, s⟩]
-                    else match fromLabel l whole with
-                      | some lad => [⟨"fail:" ++ fn ++ "->" ++ l, true, runLadder s lad⟩]
-                      | none => [⟨"fail:" ++ fn ++ "->" ++ l, false, s⟩]
+        | some l => [jumpPath whole ("fail:" ++ fn) l s]
         | none => []
       failPath ++ paths whole (applyCall s dst fn args) r
-  | s, .cond c l :: r =>
-      (match fromLabel l whole with
-       | some lad => [(⟨"cond:" ++ c ++ "->" ++ l, true, runLadder s lad⟩ : Path)]
-       | none => [⟨"cond:" ++ c ++ "->" ++ l, l == "<return>", s⟩])
-      ++ paths whole s r
-  | s, .goto l :: _ =>
-      match fromLabel l whole with
-      | some lad => [⟨"goto:" ++ l, true, runLadder s lad⟩]
-      | none => [⟨"goto:" ++ l, false, s⟩]
+  | s, .cond c l :: r => jumpPath whole ("cond:" ++ c) l (assumeCond c s) :: paths whole s r
+  | s, .goto l :: _ => [jumpPath whole "goto" l s]
   | s, .label _ :: r => paths whole s r
 
 /-- a path is clean when every tainted object was released with `BN_clear_free`, nothing tainted
